@@ -37,7 +37,7 @@ def _run(cmd, timeout):
         rc = p.returncode
     except subprocess.TimeoutExpired as e:
         out = (e.stdout or b'').decode() if isinstance(e.stdout, bytes) else (e.stdout or '')
-        rc = -9
+        rc = 'deadline'
     recs = []
     for l in out.splitlines():
         l = l.strip()
@@ -76,7 +76,10 @@ def run_obligation(build, name, spec, max_seconds=300.0, frontier=256, pool=None
                 agg['records'].append(r)
         if not got_summary:
             agg['exhaustive'] = False
-            agg['errors'].append('explorer ended without summary (rc=%s)' % rc)
+            if rc == 'deadline':      # killed 30 s after its time budget (one long path or solver call): inconclusive for its prefixes, not an error
+                agg['killed_at_deadline'] = agg.get('killed_at_deadline', 0) + 1
+            else:
+                agg['errors'].append('explorer ended without summary (rc=%s)' % rc)
     rc, recs = _run([build.explorer, sf, '--frontier', str(frontier), '--max-seconds', str(max_seconds / 2)], max_seconds)
     prefixes = [r['p'] for r in recs if r.get('type') == 'prefix']
     absorb(rc, [r for r in recs if r.get('type') != 'prefix'])
